@@ -47,7 +47,7 @@ def gen_case(rng: random.Random, tier: str) -> dict:
     # extra dtypes
     extra = []
     if rng.random() < 0.5:
-        extra.append(["i", {"kind": "num", "dtype": rng.choice(["int64", "int32", "int8", "uint8", "uint16", "float32"]), "values": [float(rng.randint(0, 9)) for _ in range(n)]}])
+        extra.append(["i", {"kind": "num", "dtype": rng.choice(["int64", "int32", "int8", "uint8", "uint16", "float32", "float16"]), "values": [float(rng.randint(0, 9)) for _ in range(n)]}])
     if rng.random() < 0.4:
         extra.append(["bo", {"kind": "bool", "dtype": "bool", "values": [rng.random() < 0.5 for _ in range(n)]}])
     if rng.random() < 0.25:  # a data column called `index` (what reset_index() leaves behind)
